@@ -49,7 +49,7 @@ Proof.
   split.
   - unfold buf_wf; bsimp. rewrite LS. repeat split; try exact A; try lia.
     len_simp. rewrite LS. simpl. lia.
-  - unfold bview; bsimp. rewrite LS. unfold slice. simpl skipn at 1. simpl firstn at 2. list_eq.
+  - unfold bview; bsimp. rewrite LS. unfold slice. simpl skipn at 1. simpl firstn at 2. rewrite app_nil_l. list_eq.
 Qed.
 
 (* what detach guarantees about the private buffer *)
